@@ -68,8 +68,8 @@ CLAIMED["C14"] = dict(level="exploration", ref="DESIGN.md 5/C14",
     tech=TECH + "operation-history search on Tour/Registry/RegistryContext against reference models under seeded hash order and heap addresses")
 
 CLAIMED["C18"] = dict(level="exploration", ref="DESIGN.md 5/C18",
-    text="Seeded histories: (a) SlotMachine reward streams (zeros, denormals, far out-of-range magnitudes, constant and alternating runs) compared after every update with a closed-form normal-gamma reference (alpha, beta > 0 and finite, variance >= 0, mean inside the hull of prior and rewards, sample finite with a recording sampler and the real sampler never panicking); (b) the real DynamicSelective hyper-heuristic on a scalar problem under frozen/stalled/slow simulated clocks: rewards finite and in the documented range, slot index valid; (c) terminations MaxTime/MaxGeneration/MinVariation(sample|period)/Composite: estimate in [0,1] at every read incl. after clock jumps past the limit, and MinVariation fires exactly when an independently computed coefficient of variation over exactly the documented window is below the threshold.",
-    note="Fitness histories for the CV oracle are non-negative; a step whose reference CV is within 1e-12 of the threshold or non-finite is skipped and counted.",
+    text="Seeded histories: (a) SlotMachine reward streams (zeros, denormals, far out-of-range magnitudes, constant and alternating runs) compared after every update with a closed-form normal-gamma reference (alpha, beta > 0 and finite, variance >= 0, mean inside the hull of prior and rewards, sample finite with a recording sampler and the real sampler never panicking); (b) the real DynamicSelective hyper-heuristic on a scalar problem under frozen/stalled/slow simulated clocks: rewards finite and in the documented range, slot index valid; (c) terminations MaxTime/MaxGeneration/MinVariation(sample|period)/Composite: estimate in [0,1] at every read incl. after clock jumps past the limit, and MinVariation fires exactly when an independently computed coefficient of variation over exactly the documented window is below the threshold; (d) the remedian estimator (duration medians of the selector) over observation histories against an independently written median-of-medians reference.",
+    note="Fitness histories for the CV oracle are non-negative, incl. histories of tiny magnitude (1e-17) with large relative spread and a generation limit of zero; a step whose reference CV is within 1e-12 of the threshold or non-finite is skipped and counted.",
     tech=TECH + "reward/termination history search against closed-form reference models under simulated clock policies")
 
 CLAIMED["C19"] = dict(level="exploration", ref="DESIGN.md 5/C19",
